@@ -671,6 +671,9 @@ def run(ctx: Ctx) -> None:
     ctx.attempt(rule_r3_r4_r5, ctx, g, m)
     ctx.attempt(rule_r6, ctx, m)
     ctx.attempt(rule_r7_identifiers, ctx)
+    from . import c04text
+
+    c04text.run(ctx)
     ctx.assume("fractions.Fraction and the operator module are exact (trusted stdlib); a fractional power may yield a float (outside the property's quantifier)")
     ctx.assume("symbolic operands: an arbitrary integer, an arbitrary non-integer, zero, arbitrary strings, the two booleans, every pair of non-empty subsets of a three-element pool")
     ctx.undecided("the arithmetic of Fraction itself, the values of string escapes")
